@@ -71,6 +71,8 @@ func fnExec(ctx *cmdContext, args map[string]any) (output respValue, err error) 
 	// take complete ownership of the data store
 	ctx.dsc.acquireExclusive()
 	defer ctx.dsc.releaseExclusive()
+	ctx.cs.execDsc = ctx.dsc
+	defer func() { ctx.cs.execDsc = nil }()
 
 	// maintain in-progress flag
 	ctx.cs.setMultiInProgress(true)
